@@ -13,6 +13,17 @@ static std::vector<std::vector<Ev>> trace(const Case &c, int pattern, std::vecto
     std::vector<std::vector<Ev>> out;
     for (auto &op : c.ops) {
         if (op.kind == K_ADVANCE) { vp_set_now_ms(vp_now_ms() + (uint64_t)op.arg(0)); out.push_back({}); if (frames_out) frames_out->push_back({}); continue; }
+        if (op.kind == K_PBURST) {   // flood of pairwise-distinct probes addressed to this station, delivered natively (not expanded into steps)
+            std::vector<Ev> all;
+            Mac own = h.ownmac();
+            for (int64_t k = 0; k < std::min<int64_t>(op.arg(1), 5000); k++) {
+                Bytes f = mk_simple(own, mac_from_u64(0x0600CC000000ULL + (uint64_t)(op.arg(0) + k)), 0, (k & 1) ? OP_PROBE : OP_TRAIN, own, mac_from_u64(0x0600DD000000ULL + (uint64_t)((op.arg(0) + k) % 5)), 0);
+                for (auto &e : w.deliver(ifi, f)) all.push_back(e);
+            }
+            out.push_back(all);
+            if (frames_out) frames_out->push_back({});
+            continue;
+        }
         Built b = build_frame(h, op, sh);
         if (!b.is_frame) { out.push_back({}); if (frames_out) frames_out->push_back({}); continue; }
         if (b.frame.size() > h.mtu) b.frame.resize(h.mtu);
@@ -48,6 +59,10 @@ static Verdict run(const Case &c) {
         }
         if (!v.ok) break;
         // B: solicitation budget for the frame just handled
+        if (frames[i].empty()) {   // a step that delivered no single request frame (clock advance, probe flood): nothing may have been transmitted
+            if (!sends_only(t1[i]).empty()) v.fail(fmt("step %zu: %zu frame(s) transmitted although no request was received", i, sends_only(t1[i]).size()));
+            continue;
+        }
         Budget b = budget_for(frames[i], h.mtu);
         if (frames[i].size() >= 34 && frames[i][17] == OP_EMIT && frames[i][15] == 0) {
             size_t declared = get16(frames[i].data() + 32), cap = (h.mtu - 34) / 14;
@@ -88,7 +103,26 @@ int main(int argc, char **argv) {
             {1, rc::gen::exec([=] { Op o; o.kind = K_RAW; o.blob = c01_frame(mtu, own, *frame_t_gen()); return o; })}}))));
         return c;
     });
-    bool ok = run_cases(a, ev, "c02-histories", a.n(40000, 400000), 100, gen, run);
+    bool ok = true;
+    // deterministic family: more distinct observations than the responder may retain, then the mapper drains them with Queries
+    {
+        long k = 0;
+        for (size_t mtu : {(size_t)576, (size_t)1500, (size_t)1514})
+            for (int64_t n : {1020, 1030, 1100, 2100}) {
+                if (!ok || k++ % a.nshards != a.shard) continue;
+                HCfg h; h.mtu = mtu;
+                Case c; h.to_case(c);
+                Op d; d.kind = K_DISCOVER; d.a = {0, 0, 1, 1, 0, 0, -1}; c.ops.push_back(d);
+                Op b; b.kind = K_PBURST; b.a = {1000, n}; c.ops.push_back(b);
+                for (int q = 0; q < (int)(1100 / ((mtu - 34) / 20)) + 4; q++) { Op o; o.kind = K_QUERY; o.a = {-1, 100 + q}; c.ops.push_back(o); }
+                CurrentScope scope(c);
+                Verdict v = run(c);
+                ev.note(c.digest(), v.nontrivial && v.ok, [&] { return c.to_text().substr(0, 300); });
+                ev.count("c02-flood-drain:cases");
+                if (!v.ok) { write_file(a.failing, "# c02-flood-drain: " + v.why + "\n" + c.to_text()); fprintf(stderr, "FAIL part=c02-flood-drain %s\n", v.why.c_str()); ok = false; }
+            }
+    }
+    if (ok) ok = run_cases(a, ev, "c02-histories", a.n(40000, 400000), 100, gen, run);
     ev.write(a.out);
     return ok ? 0 : 1;
 }
